@@ -54,12 +54,35 @@ pub fn p13() {
     let _ = re::math::Lerp::lerp(&a, &b, 0.5);
 }
 
-pub fn p29() {
+pub fn p32() {
     let a: re::math::color::Color3f<re::math::color::Hsl> = mk();
     let _ = a.to_rgb();
 }
 
-pub fn p39() {
+pub fn p41() {
+    let a: re::math::color::Color3f<re::math::color::LinRgb> = mk();
+    let b: re::math::color::Color3f<re::math::color::LinRgb> = mk();
+    let _ = re::math::space::Affine::add(&a, &b);
+}
+
+pub fn p42() {
+    let a: re::math::color::Color3f<re::math::color::LinRgb> = mk();
+    let b: re::math::color::Color3f<re::math::color::LinRgb> = mk();
+    let _ = re::math::space::Affine::sub(&a, &b);
+}
+
+pub fn p43() {
+    let a: re::math::color::Color3f<re::math::color::LinRgb> = mk();
+    let b: re::math::color::Color3f<re::math::color::LinRgb> = mk();
+    let _ = re::math::Lerp::lerp(&a, &b, 0.5);
+}
+
+pub fn p47() {
+    let a: re::math::color::Color3f<re::math::color::LinRgb> = mk();
+    let _ = a.to_srgb();
+}
+
+pub fn p64() {
     let a: re::math::color::Color3f<re::math::color::Rgb> = mk();
     let b: re::math::color::Color3f<re::math::color::Rgb> = mk();
     let c: re::math::color::Color3f<re::math::color::Rgb> = mk();
@@ -67,30 +90,45 @@ pub fn p39() {
     let _ = re::math::space::Affine::add(&c, &d);
 }
 
-pub fn p42() {
+pub fn p67() {
     let a: re::math::color::Color3f<re::math::color::Rgb> = mk();
     let b: re::math::color::Color3f<re::math::color::Rgb> = mk();
     let _ = re::math::space::Affine::add(&a, &b);
 }
 
-pub fn p43() {
+pub fn p68() {
     let a: re::math::color::Color3f<re::math::color::Rgb> = mk();
     let b: re::math::color::Color3f<re::math::color::Rgb> = mk();
     let _ = re::math::space::Affine::sub(&a, &b);
 }
 
-pub fn p44() {
+pub fn p69() {
     let a: re::math::color::Color3f<re::math::color::Rgb> = mk();
     let b: re::math::color::Color3f<re::math::color::Rgb> = mk();
     let _ = re::math::Lerp::lerp(&a, &b, 0.5);
 }
 
-pub fn p53() {
+pub fn p78() {
+    let a: re::math::color::Color3f<re::math::color::Rgb> = mk();
+    let _ = a.to_color3();
+}
+
+pub fn p79() {
     let a: re::math::color::Color3f<re::math::color::Rgb> = mk();
     let _ = a.to_hsl();
 }
 
-pub fn p65() {
+pub fn p80() {
+    let a: re::math::color::Color3f<re::math::color::Rgb> = mk();
+    let _ = a.to_linear();
+}
+
+pub fn p81() {
+    let a: re::math::color::Color3f<re::math::color::Rgb> = mk();
+    let _ = a.to_rgba();
+}
+
+pub fn p94() {
     let a: re::math::color::Color3<re::math::color::Hsl> = mk();
     let b: re::math::color::Color3<re::math::color::Hsl> = mk();
     let c: re::math::color::Color3<re::math::color::Hsl> = mk();
@@ -98,12 +136,12 @@ pub fn p65() {
     let _ = re::math::space::Affine::add(&c, &d);
 }
 
-pub fn p71() {
+pub fn p100() {
     let a: re::math::color::Color3<re::math::color::Hsl> = mk();
     let _ = a.to_rgb();
 }
 
-pub fn p88() {
+pub fn p121() {
     let a: re::math::color::Color3<re::math::color::Rgb> = mk();
     let b: re::math::color::Color3<re::math::color::Rgb> = mk();
     let c: re::math::color::Color3<re::math::color::Rgb> = mk();
@@ -111,939 +149,944 @@ pub fn p88() {
     let _ = re::math::space::Affine::add(&c, &d);
 }
 
-pub fn p89() {
+pub fn p122() {
     let a: re::math::color::Color3<re::math::color::Rgb> = mk();
     let _ = a.to_hsl();
 }
 
-pub fn p92() {
+pub fn p123() {
+    let a: re::math::color::Color3<re::math::color::Rgb> = mk();
+    let _ = a.to_rgba();
+}
+
+pub fn p129() {
     let a: f32 = mk();
     let b: f32 = mk();
     let _ = a + b;
 }
 
-pub fn p96() {
+pub fn p133() {
     let a: re::math::mat::Mat3x3<re::math::mat::RealToReal<2, re::render::Model, re::render::Model>> = mk();
     let b: re::math::point::Point2<re::render::Model> = mk();
     let _r: re::math::point::Point2<re::render::Model> = a.apply_pt(&b);
 }
 
-pub fn p100() {
+pub fn p137() {
     let a: re::math::mat::Mat3x3<re::math::mat::RealToReal<2, re::render::Model, re::render::Model>> = mk();
     let b: re::math::vec::Vec2<re::render::Model> = mk();
     let _r: re::math::vec::Vec2<re::render::Model> = a.apply(&b);
 }
 
-pub fn p102() {
+pub fn p139() {
     let a: re::math::mat::Mat3x3<re::math::mat::RealToReal<2, re::render::Model, re::render::Model>> = mk();
     let b: re::math::vec::Vec2<re::render::Model> = mk();
     let _ = a.apply(&b);
 }
 
-pub fn p109() {
+pub fn p146() {
     let a: re::math::mat::Mat3x3<re::math::mat::RealToReal<2, re::render::Model, re::render::World>> = mk();
     let b: re::math::point::Point2<re::render::Model> = mk();
     let _r: re::math::point::Point2<re::render::World> = a.apply_pt(&b);
 }
 
-pub fn p113() {
+pub fn p150() {
     let a: re::math::mat::Mat3x3<re::math::mat::RealToReal<2, re::render::Model, re::render::World>> = mk();
     let b: re::math::vec::Vec2<re::render::Model> = mk();
     let _r: re::math::vec::Vec2<re::render::World> = a.apply(&b);
 }
 
-pub fn p114() {
+pub fn p151() {
     let a: re::math::mat::Mat3x3<re::math::mat::RealToReal<2, re::render::Model, re::render::World>> = mk();
     let b: re::math::vec::Vec2<re::render::Model> = mk();
     let _ = a.apply(&b);
 }
 
-pub fn p122() {
+pub fn p159() {
     let a: re::math::mat::Mat3x3<re::math::mat::RealToReal<2, re::render::World, re::render::Model>> = mk();
     let b: re::math::point::Point2<re::render::World> = mk();
     let _r: re::math::point::Point2<re::render::Model> = a.apply_pt(&b);
 }
 
-pub fn p127() {
+pub fn p164() {
     let a: re::math::mat::Mat3x3<re::math::mat::RealToReal<2, re::render::World, re::render::Model>> = mk();
     let b: re::math::vec::Vec2<re::render::World> = mk();
     let _r: re::math::vec::Vec2<re::render::Model> = a.apply(&b);
 }
 
-pub fn p129() {
+pub fn p166() {
     let a: re::math::mat::Mat3x3<re::math::mat::RealToReal<2, re::render::World, re::render::Model>> = mk();
     let b: re::math::vec::Vec2<re::render::World> = mk();
     let _ = a.apply(&b);
 }
 
-pub fn p135() {
+pub fn p172() {
     let a: re::math::mat::Mat3x3<re::math::mat::RealToReal<2, re::render::World, re::render::World>> = mk();
     let b: re::math::point::Point2<re::render::World> = mk();
     let _r: re::math::point::Point2<re::render::World> = a.apply_pt(&b);
 }
 
-pub fn p140() {
+pub fn p177() {
     let a: re::math::mat::Mat3x3<re::math::mat::RealToReal<2, re::render::World, re::render::World>> = mk();
     let b: re::math::vec::Vec2<re::render::World> = mk();
     let _r: re::math::vec::Vec2<re::render::World> = a.apply(&b);
 }
 
-pub fn p141() {
+pub fn p178() {
     let a: re::math::mat::Mat3x3<re::math::mat::RealToReal<2, re::render::World, re::render::World>> = mk();
     let b: re::math::vec::Vec2<re::render::World> = mk();
     let _ = a.apply(&b);
 }
 
-pub fn p144() {
+pub fn p181() {
     let a: re::math::mat::Mat4x4<re::math::mat::RealToReal<3, re::render::Model, re::render::Model>> = mk();
     let b: re::math::mat::Mat4x4<re::math::mat::RealToReal<3, re::render::Model, re::render::Model>> = mk();
     let _r: re::math::mat::Mat4x4<re::math::mat::RealToReal<3, re::render::Model, re::render::Model>> = a.compose(&b);
 }
 
-pub fn p148() {
+pub fn p185() {
     let a: re::math::mat::Mat4x4<re::math::mat::RealToReal<3, re::render::Model, re::render::Model>> = mk();
     let b: re::math::mat::Mat4x4<re::math::mat::RealToReal<3, re::render::Model, re::render::Model>> = mk();
     let _ = a.compose(&b);
 }
 
-pub fn p149() {
+pub fn p186() {
     let a: re::math::mat::Mat4x4<re::math::mat::RealToReal<3, re::render::Model, re::render::Model>> = mk();
     let b: re::math::mat::Mat4x4<re::math::mat::RealToReal<3, re::render::Model, re::render::Model>> = mk();
     let _ = a.then(&b);
 }
 
-pub fn p151() {
+pub fn p188() {
     let a: re::math::mat::Mat4x4<re::math::mat::RealToReal<3, re::render::Model, re::render::Model>> = mk();
     let b: re::math::mat::Mat4x4<re::math::mat::RealToReal<3, re::render::Model, ()>> = mk();
     let _ = a.then(&b);
 }
 
-pub fn p157() {
+pub fn p194() {
     let a: re::math::mat::Mat4x4<re::math::mat::RealToReal<3, re::render::Model, re::render::Model>> = mk();
     let b: re::math::mat::Mat4x4<re::math::mat::RealToReal<3, re::render::Model, re::render::World>> = mk();
     let _ = a.then(&b);
 }
 
-pub fn p159() {
+pub fn p196() {
     let a: re::math::mat::Mat4x4<re::math::mat::RealToReal<3, re::render::Model, re::render::Model>> = mk();
     let b: re::math::mat::Mat4x4<re::math::mat::RealToReal<3, (), re::render::Model>> = mk();
     let _ = a.compose(&b);
 }
 
-pub fn p166() {
+pub fn p203() {
     let a: re::math::mat::Mat4x4<re::math::mat::RealToReal<3, re::render::Model, re::render::Model>> = mk();
     let b: re::math::mat::Mat4x4<re::math::mat::RealToReal<3, re::render::World, re::render::Model>> = mk();
     let _r: re::math::mat::Mat4x4<re::math::mat::RealToReal<3, re::render::World, re::render::Model>> = a.compose(&b);
 }
 
-pub fn p169() {
+pub fn p206() {
     let a: re::math::mat::Mat4x4<re::math::mat::RealToReal<3, re::render::Model, re::render::Model>> = mk();
     let b: re::math::mat::Mat4x4<re::math::mat::RealToReal<3, re::render::World, re::render::Model>> = mk();
     let _ = a.compose(&b);
-}
-
-pub fn p179() {
-    let a: re::math::mat::Mat4x4<re::math::mat::RealToReal<3, re::render::Model, re::render::Model>> = mk();
-    let b: re::math::mat::Mat4x4<re::math::mat::RealToProj<re::render::Model>> = mk();
-    let _ = a.then(&b);
-}
-
-pub fn p187() {
-    let a: re::math::mat::Mat4x4<re::math::mat::RealToReal<3, re::render::Model, re::render::Model>> = mk();
-    let b: re::math::point::Point3<re::render::Model> = mk();
-    let _r: re::math::point::Point3<re::render::Model> = a.apply_pt(&b);
-}
-
-pub fn p190() {
-    let a: re::math::mat::Mat4x4<re::math::mat::RealToReal<3, re::render::Model, re::render::Model>> = mk();
-    let b: re::math::point::Point3<re::render::Model> = mk();
-    let _ = a.apply_pt(&b);
-}
-
-pub fn p202() {
-    let a: re::math::mat::Mat4x4<re::math::mat::RealToReal<3, re::render::Model, re::render::Model>> = mk();
-    let b: re::math::vec::Vec3<re::render::Model> = mk();
-    let _r: re::math::vec::Vec3<re::render::Model> = a.apply(&b);
-}
-
-pub fn p205() {
-    let a: re::math::mat::Mat4x4<re::math::mat::RealToReal<3, re::render::Model, re::render::Model>> = mk();
-    let b: re::math::vec::Vec3<re::render::Model> = mk();
-    let _ = a.apply(&b);
-}
-
-pub fn p214() {
-    let a: re::math::mat::Mat4x4<re::math::mat::RealToReal<3, re::render::Model, re::render::Model>> = mk();
-    let _ = a.determinant();
-}
-
-pub fn p215() {
-    let a: re::math::mat::Mat4x4<re::math::mat::RealToReal<3, re::render::Model, re::render::Model>> = mk();
-    let _ = a.inverse();
 }
 
 pub fn p216() {
     let a: re::math::mat::Mat4x4<re::math::mat::RealToReal<3, re::render::Model, re::render::Model>> = mk();
+    let b: re::math::mat::Mat4x4<re::math::mat::RealToProj<re::render::Model>> = mk();
+    let _ = a.then(&b);
+}
+
+pub fn p224() {
+    let a: re::math::mat::Mat4x4<re::math::mat::RealToReal<3, re::render::Model, re::render::Model>> = mk();
+    let b: re::math::point::Point3<re::render::Model> = mk();
+    let _r: re::math::point::Point3<re::render::Model> = a.apply_pt(&b);
+}
+
+pub fn p227() {
+    let a: re::math::mat::Mat4x4<re::math::mat::RealToReal<3, re::render::Model, re::render::Model>> = mk();
+    let b: re::math::point::Point3<re::render::Model> = mk();
+    let _ = a.apply_pt(&b);
+}
+
+pub fn p239() {
+    let a: re::math::mat::Mat4x4<re::math::mat::RealToReal<3, re::render::Model, re::render::Model>> = mk();
+    let b: re::math::vec::Vec3<re::render::Model> = mk();
+    let _r: re::math::vec::Vec3<re::render::Model> = a.apply(&b);
+}
+
+pub fn p242() {
+    let a: re::math::mat::Mat4x4<re::math::mat::RealToReal<3, re::render::Model, re::render::Model>> = mk();
+    let b: re::math::vec::Vec3<re::render::Model> = mk();
+    let _ = a.apply(&b);
+}
+
+pub fn p251() {
+    let a: re::math::mat::Mat4x4<re::math::mat::RealToReal<3, re::render::Model, re::render::Model>> = mk();
+    let _ = a.determinant();
+}
+
+pub fn p252() {
+    let a: re::math::mat::Mat4x4<re::math::mat::RealToReal<3, re::render::Model, re::render::Model>> = mk();
+    let _ = a.inverse();
+}
+
+pub fn p253() {
+    let a: re::math::mat::Mat4x4<re::math::mat::RealToReal<3, re::render::Model, re::render::Model>> = mk();
     let _ = a.transpose();
 }
 
-pub fn p218() {
+pub fn p255() {
     let a: re::math::mat::Mat4x4<re::math::mat::RealToReal<3, re::render::Model, ()>> = mk();
     let b: re::math::mat::Mat4x4<re::math::mat::RealToReal<3, re::render::Model, re::render::Model>> = mk();
     let _ = a.compose(&b);
 }
 
-pub fn p223() {
+pub fn p260() {
     let a: re::math::mat::Mat4x4<re::math::mat::RealToReal<3, re::render::Model, ()>> = mk();
     let b: re::math::mat::Mat4x4<re::math::mat::RealToReal<3, (), re::render::Model>> = mk();
     let _ = a.compose(&b);
 }
 
-pub fn p224() {
+pub fn p261() {
     let a: re::math::mat::Mat4x4<re::math::mat::RealToReal<3, re::render::Model, ()>> = mk();
     let b: re::math::mat::Mat4x4<re::math::mat::RealToReal<3, (), re::render::Model>> = mk();
     let _ = a.then(&b);
 }
 
-pub fn p226() {
+pub fn p263() {
     let a: re::math::mat::Mat4x4<re::math::mat::RealToReal<3, re::render::Model, ()>> = mk();
     let b: re::math::mat::Mat4x4<re::math::mat::RealToReal<3, (), ()>> = mk();
     let _ = a.then(&b);
 }
 
-pub fn p228() {
+pub fn p265() {
     let a: re::math::mat::Mat4x4<re::math::mat::RealToReal<3, re::render::Model, ()>> = mk();
     let b: re::math::mat::Mat4x4<re::math::mat::RealToReal<3, (), re::render::World>> = mk();
     let _ = a.then(&b);
 }
 
-pub fn p230() {
+pub fn p267() {
     let a: re::math::mat::Mat4x4<re::math::mat::RealToReal<3, re::render::Model, ()>> = mk();
     let b: re::math::mat::Mat4x4<re::math::mat::RealToReal<3, re::render::World, re::render::Model>> = mk();
     let _ = a.compose(&b);
 }
 
-pub fn p238() {
+pub fn p275() {
     let a: re::math::mat::Mat4x4<re::math::mat::RealToReal<3, re::render::Model, ()>> = mk();
     let b: re::math::mat::Mat4x4<re::math::mat::RealToProj<()>> = mk();
     let _ = a.then(&b);
 }
 
-pub fn p245() {
+pub fn p282() {
     let a: re::math::mat::Mat4x4<re::math::mat::RealToReal<3, re::render::Model, ()>> = mk();
     let b: re::math::point::Point3<re::render::Model> = mk();
     let _r: re::math::point::Point3<()> = a.apply_pt(&b);
 }
 
-pub fn p247() {
+pub fn p284() {
     let a: re::math::mat::Mat4x4<re::math::mat::RealToReal<3, re::render::Model, ()>> = mk();
     let b: re::math::point::Point3<re::render::Model> = mk();
     let _ = a.apply_pt(&b);
 }
 
-pub fn p260() {
+pub fn p297() {
     let a: re::math::mat::Mat4x4<re::math::mat::RealToReal<3, re::render::Model, ()>> = mk();
     let b: re::math::vec::Vec3<re::render::Model> = mk();
     let _r: re::math::vec::Vec3<()> = a.apply(&b);
 }
 
-pub fn p262() {
+pub fn p299() {
     let a: re::math::mat::Mat4x4<re::math::mat::RealToReal<3, re::render::Model, ()>> = mk();
     let b: re::math::vec::Vec3<re::render::Model> = mk();
     let _ = a.apply(&b);
 }
 
-pub fn p271() {
+pub fn p308() {
     let a: re::math::mat::Mat4x4<re::math::mat::RealToReal<3, re::render::Model, ()>> = mk();
     let _ = a.determinant();
 }
 
-pub fn p272() {
+pub fn p309() {
     let a: re::math::mat::Mat4x4<re::math::mat::RealToReal<3, re::render::Model, ()>> = mk();
     let _ = a.inverse();
 }
 
-pub fn p273() {
+pub fn p310() {
     let a: re::math::mat::Mat4x4<re::math::mat::RealToReal<3, re::render::Model, ()>> = mk();
     let _ = a.transpose();
 }
 
-pub fn p275() {
+pub fn p312() {
     let a: re::math::mat::Mat4x4<re::math::mat::RealToReal<3, re::render::Model, re::render::World>> = mk();
     let b: re::math::mat::Mat4x4<re::math::mat::RealToReal<3, re::render::Model, re::render::Model>> = mk();
     let _r: re::math::mat::Mat4x4<re::math::mat::RealToReal<3, re::render::Model, re::render::World>> = a.compose(&b);
 }
 
-pub fn p279() {
+pub fn p316() {
     let a: re::math::mat::Mat4x4<re::math::mat::RealToReal<3, re::render::Model, re::render::World>> = mk();
     let b: re::math::mat::Mat4x4<re::math::mat::RealToReal<3, re::render::Model, re::render::Model>> = mk();
     let _ = a.compose(&b);
 }
 
-pub fn p289() {
+pub fn p326() {
     let a: re::math::mat::Mat4x4<re::math::mat::RealToReal<3, re::render::Model, re::render::World>> = mk();
     let b: re::math::mat::Mat4x4<re::math::mat::RealToReal<3, (), re::render::Model>> = mk();
     let _ = a.compose(&b);
 }
 
-pub fn p297() {
+pub fn p334() {
     let a: re::math::mat::Mat4x4<re::math::mat::RealToReal<3, re::render::Model, re::render::World>> = mk();
     let b: re::math::mat::Mat4x4<re::math::mat::RealToReal<3, re::render::World, re::render::Model>> = mk();
     let _r: re::math::mat::Mat4x4<re::math::mat::RealToReal<3, re::render::World, re::render::World>> = a.compose(&b);
 }
 
-pub fn p298() {
+pub fn p335() {
     let a: re::math::mat::Mat4x4<re::math::mat::RealToReal<3, re::render::Model, re::render::World>> = mk();
     let b: re::math::mat::Mat4x4<re::math::mat::RealToReal<3, re::render::World, re::render::Model>> = mk();
     let _ = a.compose(&b);
 }
 
-pub fn p299() {
+pub fn p336() {
     let a: re::math::mat::Mat4x4<re::math::mat::RealToReal<3, re::render::Model, re::render::World>> = mk();
     let b: re::math::mat::Mat4x4<re::math::mat::RealToReal<3, re::render::World, re::render::Model>> = mk();
     let _ = a.then(&b);
 }
 
-pub fn p301() {
+pub fn p338() {
     let a: re::math::mat::Mat4x4<re::math::mat::RealToReal<3, re::render::Model, re::render::World>> = mk();
     let b: re::math::mat::Mat4x4<re::math::mat::RealToReal<3, re::render::World, ()>> = mk();
     let _ = a.then(&b);
 }
 
-pub fn p307() {
+pub fn p344() {
     let a: re::math::mat::Mat4x4<re::math::mat::RealToReal<3, re::render::Model, re::render::World>> = mk();
     let b: re::math::mat::Mat4x4<re::math::mat::RealToReal<3, re::render::World, re::render::World>> = mk();
     let _ = a.then(&b);
 }
 
-pub fn p313() {
+pub fn p350() {
     let a: re::math::mat::Mat4x4<re::math::mat::RealToReal<3, re::render::Model, re::render::World>> = mk();
     let b: re::math::mat::Mat4x4<re::math::mat::RealToProj<re::render::World>> = mk();
     let _ = a.then(&b);
 }
 
-pub fn p319() {
+pub fn p356() {
     let a: re::math::mat::Mat4x4<re::math::mat::RealToReal<3, re::render::Model, re::render::World>> = mk();
     let b: re::math::point::Point3<re::render::Model> = mk();
     let _r: re::math::point::Point3<re::render::World> = a.apply_pt(&b);
 }
 
-pub fn p320() {
+pub fn p357() {
     let a: re::math::mat::Mat4x4<re::math::mat::RealToReal<3, re::render::Model, re::render::World>> = mk();
     let b: re::math::point::Point3<re::render::Model> = mk();
     let _ = a.apply_pt(&b);
 }
 
-pub fn p334() {
+pub fn p371() {
     let a: re::math::mat::Mat4x4<re::math::mat::RealToReal<3, re::render::Model, re::render::World>> = mk();
     let b: re::math::vec::Vec3<re::render::Model> = mk();
     let _r: re::math::vec::Vec3<re::render::World> = a.apply(&b);
 }
 
-pub fn p335() {
+pub fn p372() {
     let a: re::math::mat::Mat4x4<re::math::mat::RealToReal<3, re::render::Model, re::render::World>> = mk();
     let b: re::math::vec::Vec3<re::render::Model> = mk();
     let _ = a.apply(&b);
 }
 
-pub fn p344() {
+pub fn p381() {
     let a: re::math::mat::Mat4x4<re::math::mat::RealToReal<3, re::render::Model, re::render::World>> = mk();
     let _ = a.determinant();
 }
 
-pub fn p345() {
+pub fn p382() {
     let a: re::math::mat::Mat4x4<re::math::mat::RealToReal<3, re::render::Model, re::render::World>> = mk();
     let _ = a.inverse();
 }
 
-pub fn p346() {
+pub fn p383() {
     let a: re::math::mat::Mat4x4<re::math::mat::RealToReal<3, re::render::Model, re::render::World>> = mk();
     let _ = a.transpose();
 }
 
-pub fn p348() {
+pub fn p385() {
     let a: re::math::mat::Mat4x4<re::math::mat::RealToReal<3, (), re::render::Model>> = mk();
     let b: re::math::mat::Mat4x4<re::math::mat::RealToReal<3, re::render::Model, re::render::Model>> = mk();
     let _ = a.then(&b);
 }
 
-pub fn p349() {
+pub fn p386() {
     let a: re::math::mat::Mat4x4<re::math::mat::RealToReal<3, (), re::render::Model>> = mk();
     let b: re::math::mat::Mat4x4<re::math::mat::RealToReal<3, re::render::Model, ()>> = mk();
     let _ = a.compose(&b);
 }
 
-pub fn p350() {
+pub fn p387() {
     let a: re::math::mat::Mat4x4<re::math::mat::RealToReal<3, (), re::render::Model>> = mk();
     let b: re::math::mat::Mat4x4<re::math::mat::RealToReal<3, re::render::Model, ()>> = mk();
     let _ = a.then(&b);
 }
 
-pub fn p352() {
+pub fn p389() {
     let a: re::math::mat::Mat4x4<re::math::mat::RealToReal<3, (), re::render::Model>> = mk();
     let b: re::math::mat::Mat4x4<re::math::mat::RealToReal<3, re::render::Model, re::render::World>> = mk();
     let _ = a.then(&b);
 }
 
-pub fn p356() {
+pub fn p393() {
     let a: re::math::mat::Mat4x4<re::math::mat::RealToReal<3, (), re::render::Model>> = mk();
     let b: re::math::mat::Mat4x4<re::math::mat::RealToReal<3, (), ()>> = mk();
     let _ = a.compose(&b);
 }
 
-pub fn p362() {
+pub fn p399() {
     let a: re::math::mat::Mat4x4<re::math::mat::RealToReal<3, (), re::render::Model>> = mk();
     let b: re::math::mat::Mat4x4<re::math::mat::RealToReal<3, re::render::World, ()>> = mk();
     let _ = a.compose(&b);
 }
 
-pub fn p366() {
+pub fn p403() {
     let a: re::math::mat::Mat4x4<re::math::mat::RealToReal<3, (), re::render::Model>> = mk();
     let b: re::math::mat::Mat4x4<re::math::mat::RealToProj<re::render::Model>> = mk();
     let _ = a.then(&b);
 }
 
-pub fn p378() {
+pub fn p415() {
     let a: re::math::mat::Mat4x4<re::math::mat::RealToReal<3, (), re::render::Model>> = mk();
     let b: re::math::point::Point3<()> = mk();
     let _r: re::math::point::Point3<re::render::Model> = a.apply_pt(&b);
 }
 
-pub fn p381() {
+pub fn p418() {
     let a: re::math::mat::Mat4x4<re::math::mat::RealToReal<3, (), re::render::Model>> = mk();
     let b: re::math::point::Point3<()> = mk();
     let _ = a.apply_pt(&b);
 }
 
-pub fn p393() {
+pub fn p430() {
     let a: re::math::mat::Mat4x4<re::math::mat::RealToReal<3, (), re::render::Model>> = mk();
     let b: re::math::vec::Vec3<()> = mk();
     let _r: re::math::vec::Vec3<re::render::Model> = a.apply(&b);
 }
 
-pub fn p396() {
+pub fn p433() {
     let a: re::math::mat::Mat4x4<re::math::mat::RealToReal<3, (), re::render::Model>> = mk();
     let b: re::math::vec::Vec3<()> = mk();
     let _ = a.apply(&b);
 }
 
-pub fn p401() {
+pub fn p438() {
     let a: re::math::mat::Mat4x4<re::math::mat::RealToReal<3, (), re::render::Model>> = mk();
     let _ = a.determinant();
 }
 
-pub fn p402() {
+pub fn p439() {
     let a: re::math::mat::Mat4x4<re::math::mat::RealToReal<3, (), re::render::Model>> = mk();
     let _ = a.inverse();
 }
 
-pub fn p403() {
+pub fn p440() {
     let a: re::math::mat::Mat4x4<re::math::mat::RealToReal<3, (), re::render::Model>> = mk();
     let _ = a.transpose();
 }
 
-pub fn p407() {
+pub fn p444() {
     let a: re::math::mat::Mat4x4<re::math::mat::RealToReal<3, (), ()>> = mk();
     let b: re::math::mat::Mat4x4<re::math::mat::RealToReal<3, re::render::Model, ()>> = mk();
     let _ = a.compose(&b);
 }
 
-pub fn p411() {
+pub fn p448() {
     let a: re::math::mat::Mat4x4<re::math::mat::RealToReal<3, (), ()>> = mk();
     let b: re::math::mat::Mat4x4<re::math::mat::RealToReal<3, (), re::render::Model>> = mk();
     let _ = a.then(&b);
 }
 
-pub fn p412() {
+pub fn p449() {
     let a: re::math::mat::Mat4x4<re::math::mat::RealToReal<3, (), ()>> = mk();
     let b: re::math::mat::Mat4x4<re::math::mat::RealToReal<3, (), ()>> = mk();
     let _ = a.compose(&b);
 }
 
-pub fn p413() {
+pub fn p450() {
     let a: re::math::mat::Mat4x4<re::math::mat::RealToReal<3, (), ()>> = mk();
     let b: re::math::mat::Mat4x4<re::math::mat::RealToReal<3, (), ()>> = mk();
     let _ = a.then(&b);
 }
 
-pub fn p415() {
+pub fn p452() {
     let a: re::math::mat::Mat4x4<re::math::mat::RealToReal<3, (), ()>> = mk();
     let b: re::math::mat::Mat4x4<re::math::mat::RealToReal<3, (), re::render::World>> = mk();
     let _ = a.then(&b);
 }
 
-pub fn p419() {
+pub fn p456() {
     let a: re::math::mat::Mat4x4<re::math::mat::RealToReal<3, (), ()>> = mk();
     let b: re::math::mat::Mat4x4<re::math::mat::RealToReal<3, re::render::World, ()>> = mk();
     let _ = a.compose(&b);
 }
 
-pub fn p425() {
+pub fn p462() {
     let a: re::math::mat::Mat4x4<re::math::mat::RealToReal<3, (), ()>> = mk();
     let b: re::math::mat::Mat4x4<re::math::mat::RealToProj<()>> = mk();
     let _ = a.then(&b);
 }
 
-pub fn p436() {
+pub fn p473() {
     let a: re::math::mat::Mat4x4<re::math::mat::RealToReal<3, (), ()>> = mk();
     let b: re::math::point::Point3<()> = mk();
     let _r: re::math::point::Point3<()> = a.apply_pt(&b);
 }
 
-pub fn p438() {
+pub fn p475() {
     let a: re::math::mat::Mat4x4<re::math::mat::RealToReal<3, (), ()>> = mk();
     let b: re::math::point::Point3<()> = mk();
     let _ = a.apply_pt(&b);
 }
 
-pub fn p451() {
+pub fn p488() {
     let a: re::math::mat::Mat4x4<re::math::mat::RealToReal<3, (), ()>> = mk();
     let b: re::math::vec::Vec3<()> = mk();
     let _r: re::math::vec::Vec3<()> = a.apply(&b);
 }
 
-pub fn p453() {
+pub fn p490() {
     let a: re::math::mat::Mat4x4<re::math::mat::RealToReal<3, (), ()>> = mk();
     let b: re::math::vec::Vec3<()> = mk();
     let _ = a.apply(&b);
 }
 
-pub fn p458() {
+pub fn p495() {
     let a: re::math::mat::Mat4x4<re::math::mat::RealToReal<3, (), ()>> = mk();
     let _ = a.determinant();
 }
 
-pub fn p459() {
+pub fn p496() {
     let a: re::math::mat::Mat4x4<re::math::mat::RealToReal<3, (), ()>> = mk();
     let _ = a.inverse();
 }
 
-pub fn p460() {
+pub fn p497() {
     let a: re::math::mat::Mat4x4<re::math::mat::RealToReal<3, (), ()>> = mk();
     let _ = a.transpose();
 }
 
-pub fn p464() {
+pub fn p501() {
     let a: re::math::mat::Mat4x4<re::math::mat::RealToReal<3, (), re::render::World>> = mk();
     let b: re::math::mat::Mat4x4<re::math::mat::RealToReal<3, re::render::Model, ()>> = mk();
     let _ = a.compose(&b);
 }
 
-pub fn p470() {
+pub fn p507() {
     let a: re::math::mat::Mat4x4<re::math::mat::RealToReal<3, (), re::render::World>> = mk();
     let b: re::math::mat::Mat4x4<re::math::mat::RealToReal<3, (), ()>> = mk();
     let _ = a.compose(&b);
 }
 
-pub fn p474() {
+pub fn p511() {
     let a: re::math::mat::Mat4x4<re::math::mat::RealToReal<3, (), re::render::World>> = mk();
     let b: re::math::mat::Mat4x4<re::math::mat::RealToReal<3, re::render::World, re::render::Model>> = mk();
     let _ = a.then(&b);
 }
 
-pub fn p475() {
+pub fn p512() {
     let a: re::math::mat::Mat4x4<re::math::mat::RealToReal<3, (), re::render::World>> = mk();
     let b: re::math::mat::Mat4x4<re::math::mat::RealToReal<3, re::render::World, ()>> = mk();
     let _ = a.compose(&b);
 }
 
-pub fn p476() {
+pub fn p513() {
     let a: re::math::mat::Mat4x4<re::math::mat::RealToReal<3, (), re::render::World>> = mk();
     let b: re::math::mat::Mat4x4<re::math::mat::RealToReal<3, re::render::World, ()>> = mk();
     let _ = a.then(&b);
 }
 
-pub fn p478() {
+pub fn p515() {
     let a: re::math::mat::Mat4x4<re::math::mat::RealToReal<3, (), re::render::World>> = mk();
     let b: re::math::mat::Mat4x4<re::math::mat::RealToReal<3, re::render::World, re::render::World>> = mk();
     let _ = a.then(&b);
 }
 
-pub fn p484() {
+pub fn p521() {
     let a: re::math::mat::Mat4x4<re::math::mat::RealToReal<3, (), re::render::World>> = mk();
     let b: re::math::mat::Mat4x4<re::math::mat::RealToProj<re::render::World>> = mk();
     let _ = a.then(&b);
 }
 
-pub fn p494() {
+pub fn p531() {
     let a: re::math::mat::Mat4x4<re::math::mat::RealToReal<3, (), re::render::World>> = mk();
     let b: re::math::point::Point3<()> = mk();
     let _r: re::math::point::Point3<re::render::World> = a.apply_pt(&b);
 }
 
-pub fn p495() {
+pub fn p532() {
     let a: re::math::mat::Mat4x4<re::math::mat::RealToReal<3, (), re::render::World>> = mk();
     let b: re::math::point::Point3<()> = mk();
     let _ = a.apply_pt(&b);
 }
 
-pub fn p509() {
+pub fn p546() {
     let a: re::math::mat::Mat4x4<re::math::mat::RealToReal<3, (), re::render::World>> = mk();
     let b: re::math::vec::Vec3<()> = mk();
     let _r: re::math::vec::Vec3<re::render::World> = a.apply(&b);
 }
 
-pub fn p510() {
+pub fn p547() {
     let a: re::math::mat::Mat4x4<re::math::mat::RealToReal<3, (), re::render::World>> = mk();
     let b: re::math::vec::Vec3<()> = mk();
     let _ = a.apply(&b);
 }
 
-pub fn p515() {
+pub fn p552() {
     let a: re::math::mat::Mat4x4<re::math::mat::RealToReal<3, (), re::render::World>> = mk();
     let _ = a.determinant();
 }
 
-pub fn p516() {
+pub fn p553() {
     let a: re::math::mat::Mat4x4<re::math::mat::RealToReal<3, (), re::render::World>> = mk();
     let _ = a.inverse();
 }
 
-pub fn p517() {
+pub fn p554() {
     let a: re::math::mat::Mat4x4<re::math::mat::RealToReal<3, (), re::render::World>> = mk();
     let _ = a.transpose();
 }
 
-pub fn p523() {
+pub fn p560() {
     let a: re::math::mat::Mat4x4<re::math::mat::RealToReal<3, re::render::World, re::render::Model>> = mk();
     let b: re::math::mat::Mat4x4<re::math::mat::RealToReal<3, re::render::Model, re::render::Model>> = mk();
     let _ = a.then(&b);
 }
 
-pub fn p525() {
+pub fn p562() {
     let a: re::math::mat::Mat4x4<re::math::mat::RealToReal<3, re::render::World, re::render::Model>> = mk();
     let b: re::math::mat::Mat4x4<re::math::mat::RealToReal<3, re::render::Model, ()>> = mk();
     let _ = a.then(&b);
 }
 
-pub fn p526() {
+pub fn p563() {
     let a: re::math::mat::Mat4x4<re::math::mat::RealToReal<3, re::render::World, re::render::Model>> = mk();
     let b: re::math::mat::Mat4x4<re::math::mat::RealToReal<3, re::render::Model, re::render::World>> = mk();
     let _r: re::math::mat::Mat4x4<re::math::mat::RealToReal<3, re::render::Model, re::render::Model>> = a.compose(&b);
 }
 
-pub fn p530() {
+pub fn p567() {
     let a: re::math::mat::Mat4x4<re::math::mat::RealToReal<3, re::render::World, re::render::Model>> = mk();
     let b: re::math::mat::Mat4x4<re::math::mat::RealToReal<3, re::render::Model, re::render::World>> = mk();
     let _ = a.compose(&b);
 }
 
-pub fn p531() {
+pub fn p568() {
     let a: re::math::mat::Mat4x4<re::math::mat::RealToReal<3, re::render::World, re::render::Model>> = mk();
     let b: re::math::mat::Mat4x4<re::math::mat::RealToReal<3, re::render::Model, re::render::World>> = mk();
     let _ = a.then(&b);
 }
 
-pub fn p537() {
+pub fn p574() {
     let a: re::math::mat::Mat4x4<re::math::mat::RealToReal<3, re::render::World, re::render::Model>> = mk();
     let b: re::math::mat::Mat4x4<re::math::mat::RealToReal<3, (), re::render::World>> = mk();
     let _ = a.compose(&b);
 }
 
-pub fn p548() {
+pub fn p585() {
     let a: re::math::mat::Mat4x4<re::math::mat::RealToReal<3, re::render::World, re::render::Model>> = mk();
     let b: re::math::mat::Mat4x4<re::math::mat::RealToReal<3, re::render::World, re::render::World>> = mk();
     let _r: re::math::mat::Mat4x4<re::math::mat::RealToReal<3, re::render::World, re::render::Model>> = a.compose(&b);
 }
 
-pub fn p551() {
+pub fn p588() {
     let a: re::math::mat::Mat4x4<re::math::mat::RealToReal<3, re::render::World, re::render::Model>> = mk();
     let b: re::math::mat::Mat4x4<re::math::mat::RealToReal<3, re::render::World, re::render::World>> = mk();
     let _ = a.compose(&b);
 }
 
-pub fn p553() {
+pub fn p590() {
     let a: re::math::mat::Mat4x4<re::math::mat::RealToReal<3, re::render::World, re::render::Model>> = mk();
     let b: re::math::mat::Mat4x4<re::math::mat::RealToProj<re::render::Model>> = mk();
     let _ = a.then(&b);
 }
 
-pub fn p569() {
+pub fn p606() {
     let a: re::math::mat::Mat4x4<re::math::mat::RealToReal<3, re::render::World, re::render::Model>> = mk();
     let b: re::math::point::Point3<re::render::World> = mk();
     let _r: re::math::point::Point3<re::render::Model> = a.apply_pt(&b);
 }
 
-pub fn p572() {
+pub fn p609() {
     let a: re::math::mat::Mat4x4<re::math::mat::RealToReal<3, re::render::World, re::render::Model>> = mk();
     let b: re::math::point::Point3<re::render::World> = mk();
     let _ = a.apply_pt(&b);
 }
 
-pub fn p584() {
+pub fn p621() {
     let a: re::math::mat::Mat4x4<re::math::mat::RealToReal<3, re::render::World, re::render::Model>> = mk();
     let b: re::math::vec::Vec3<re::render::World> = mk();
     let _r: re::math::vec::Vec3<re::render::Model> = a.apply(&b);
 }
 
-pub fn p587() {
+pub fn p624() {
     let a: re::math::mat::Mat4x4<re::math::mat::RealToReal<3, re::render::World, re::render::Model>> = mk();
     let b: re::math::vec::Vec3<re::render::World> = mk();
     let _ = a.apply(&b);
 }
 
-pub fn p588() {
+pub fn p625() {
     let a: re::math::mat::Mat4x4<re::math::mat::RealToReal<3, re::render::World, re::render::Model>> = mk();
     let _ = a.determinant();
 }
 
-pub fn p589() {
+pub fn p626() {
     let a: re::math::mat::Mat4x4<re::math::mat::RealToReal<3, re::render::World, re::render::Model>> = mk();
     let _ = a.inverse();
 }
 
-pub fn p590() {
+pub fn p627() {
     let a: re::math::mat::Mat4x4<re::math::mat::RealToReal<3, re::render::World, re::render::Model>> = mk();
     let _ = a.transpose();
 }
 
-pub fn p596() {
+pub fn p633() {
     let a: re::math::mat::Mat4x4<re::math::mat::RealToReal<3, re::render::World, ()>> = mk();
     let b: re::math::mat::Mat4x4<re::math::mat::RealToReal<3, re::render::Model, re::render::World>> = mk();
     let _ = a.compose(&b);
 }
 
-pub fn p598() {
+pub fn p635() {
     let a: re::math::mat::Mat4x4<re::math::mat::RealToReal<3, re::render::World, ()>> = mk();
     let b: re::math::mat::Mat4x4<re::math::mat::RealToReal<3, (), re::render::Model>> = mk();
     let _ = a.then(&b);
 }
 
-pub fn p600() {
+pub fn p637() {
     let a: re::math::mat::Mat4x4<re::math::mat::RealToReal<3, re::render::World, ()>> = mk();
     let b: re::math::mat::Mat4x4<re::math::mat::RealToReal<3, (), ()>> = mk();
     let _ = a.then(&b);
 }
 
-pub fn p601() {
+pub fn p638() {
     let a: re::math::mat::Mat4x4<re::math::mat::RealToReal<3, re::render::World, ()>> = mk();
     let b: re::math::mat::Mat4x4<re::math::mat::RealToReal<3, (), re::render::World>> = mk();
     let _ = a.compose(&b);
 }
 
-pub fn p602() {
+pub fn p639() {
     let a: re::math::mat::Mat4x4<re::math::mat::RealToReal<3, re::render::World, ()>> = mk();
     let b: re::math::mat::Mat4x4<re::math::mat::RealToReal<3, (), re::render::World>> = mk();
     let _ = a.then(&b);
 }
 
-pub fn p608() {
+pub fn p645() {
     let a: re::math::mat::Mat4x4<re::math::mat::RealToReal<3, re::render::World, ()>> = mk();
     let b: re::math::mat::Mat4x4<re::math::mat::RealToReal<3, re::render::World, re::render::World>> = mk();
     let _ = a.compose(&b);
 }
 
-pub fn p612() {
+pub fn p649() {
     let a: re::math::mat::Mat4x4<re::math::mat::RealToReal<3, re::render::World, ()>> = mk();
     let b: re::math::mat::Mat4x4<re::math::mat::RealToProj<()>> = mk();
     let _ = a.then(&b);
 }
 
-pub fn p627() {
+pub fn p664() {
     let a: re::math::mat::Mat4x4<re::math::mat::RealToReal<3, re::render::World, ()>> = mk();
     let b: re::math::point::Point3<re::render::World> = mk();
     let _r: re::math::point::Point3<()> = a.apply_pt(&b);
 }
 
-pub fn p629() {
+pub fn p666() {
     let a: re::math::mat::Mat4x4<re::math::mat::RealToReal<3, re::render::World, ()>> = mk();
     let b: re::math::point::Point3<re::render::World> = mk();
     let _ = a.apply_pt(&b);
 }
 
-pub fn p642() {
+pub fn p679() {
     let a: re::math::mat::Mat4x4<re::math::mat::RealToReal<3, re::render::World, ()>> = mk();
     let b: re::math::vec::Vec3<re::render::World> = mk();
     let _r: re::math::vec::Vec3<()> = a.apply(&b);
 }
 
-pub fn p644() {
+pub fn p681() {
     let a: re::math::mat::Mat4x4<re::math::mat::RealToReal<3, re::render::World, ()>> = mk();
     let b: re::math::vec::Vec3<re::render::World> = mk();
     let _ = a.apply(&b);
 }
 
-pub fn p645() {
+pub fn p682() {
     let a: re::math::mat::Mat4x4<re::math::mat::RealToReal<3, re::render::World, ()>> = mk();
     let _ = a.determinant();
 }
 
-pub fn p646() {
+pub fn p683() {
     let a: re::math::mat::Mat4x4<re::math::mat::RealToReal<3, re::render::World, ()>> = mk();
     let _ = a.inverse();
 }
 
-pub fn p647() {
+pub fn p684() {
     let a: re::math::mat::Mat4x4<re::math::mat::RealToReal<3, re::render::World, ()>> = mk();
     let _ = a.transpose();
 }
 
-pub fn p657() {
+pub fn p694() {
     let a: re::math::mat::Mat4x4<re::math::mat::RealToReal<3, re::render::World, re::render::World>> = mk();
     let b: re::math::mat::Mat4x4<re::math::mat::RealToReal<3, re::render::Model, re::render::World>> = mk();
     let _r: re::math::mat::Mat4x4<re::math::mat::RealToReal<3, re::render::Model, re::render::World>> = a.compose(&b);
 }
 
-pub fn p661() {
+pub fn p698() {
     let a: re::math::mat::Mat4x4<re::math::mat::RealToReal<3, re::render::World, re::render::World>> = mk();
     let b: re::math::mat::Mat4x4<re::math::mat::RealToReal<3, re::render::Model, re::render::World>> = mk();
     let _ = a.compose(&b);
 }
 
-pub fn p667() {
+pub fn p704() {
     let a: re::math::mat::Mat4x4<re::math::mat::RealToReal<3, re::render::World, re::render::World>> = mk();
     let b: re::math::mat::Mat4x4<re::math::mat::RealToReal<3, (), re::render::World>> = mk();
     let _ = a.compose(&b);
 }
 
-pub fn p673() {
+pub fn p710() {
     let a: re::math::mat::Mat4x4<re::math::mat::RealToReal<3, re::render::World, re::render::World>> = mk();
     let b: re::math::mat::Mat4x4<re::math::mat::RealToReal<3, re::render::World, re::render::Model>> = mk();
     let _ = a.then(&b);
 }
 
-pub fn p675() {
+pub fn p712() {
     let a: re::math::mat::Mat4x4<re::math::mat::RealToReal<3, re::render::World, re::render::World>> = mk();
     let b: re::math::mat::Mat4x4<re::math::mat::RealToReal<3, re::render::World, ()>> = mk();
     let _ = a.then(&b);
 }
 
-pub fn p679() {
+pub fn p716() {
     let a: re::math::mat::Mat4x4<re::math::mat::RealToReal<3, re::render::World, re::render::World>> = mk();
     let b: re::math::mat::Mat4x4<re::math::mat::RealToReal<3, re::render::World, re::render::World>> = mk();
     let _r: re::math::mat::Mat4x4<re::math::mat::RealToReal<3, re::render::World, re::render::World>> = a.compose(&b);
 }
 
-pub fn p680() {
+pub fn p717() {
     let a: re::math::mat::Mat4x4<re::math::mat::RealToReal<3, re::render::World, re::render::World>> = mk();
     let b: re::math::mat::Mat4x4<re::math::mat::RealToReal<3, re::render::World, re::render::World>> = mk();
     let _ = a.compose(&b);
 }
 
-pub fn p681() {
+pub fn p718() {
     let a: re::math::mat::Mat4x4<re::math::mat::RealToReal<3, re::render::World, re::render::World>> = mk();
     let b: re::math::mat::Mat4x4<re::math::mat::RealToReal<3, re::render::World, re::render::World>> = mk();
     let _ = a.then(&b);
 }
 
-pub fn p687() {
+pub fn p724() {
     let a: re::math::mat::Mat4x4<re::math::mat::RealToReal<3, re::render::World, re::render::World>> = mk();
     let b: re::math::mat::Mat4x4<re::math::mat::RealToProj<re::render::World>> = mk();
     let _ = a.then(&b);
 }
 
-pub fn p701() {
+pub fn p738() {
     let a: re::math::mat::Mat4x4<re::math::mat::RealToReal<3, re::render::World, re::render::World>> = mk();
     let b: re::math::point::Point3<re::render::World> = mk();
     let _r: re::math::point::Point3<re::render::World> = a.apply_pt(&b);
 }
 
-pub fn p702() {
+pub fn p739() {
     let a: re::math::mat::Mat4x4<re::math::mat::RealToReal<3, re::render::World, re::render::World>> = mk();
     let b: re::math::point::Point3<re::render::World> = mk();
     let _ = a.apply_pt(&b);
 }
 
-pub fn p716() {
+pub fn p753() {
     let a: re::math::mat::Mat4x4<re::math::mat::RealToReal<3, re::render::World, re::render::World>> = mk();
     let b: re::math::vec::Vec3<re::render::World> = mk();
     let _r: re::math::vec::Vec3<re::render::World> = a.apply(&b);
 }
 
-pub fn p717() {
+pub fn p754() {
     let a: re::math::mat::Mat4x4<re::math::mat::RealToReal<3, re::render::World, re::render::World>> = mk();
     let b: re::math::vec::Vec3<re::render::World> = mk();
     let _ = a.apply(&b);
 }
 
-pub fn p718() {
+pub fn p755() {
     let a: re::math::mat::Mat4x4<re::math::mat::RealToReal<3, re::render::World, re::render::World>> = mk();
     let _ = a.determinant();
 }
 
-pub fn p719() {
+pub fn p756() {
     let a: re::math::mat::Mat4x4<re::math::mat::RealToReal<3, re::render::World, re::render::World>> = mk();
     let _ = a.inverse();
 }
 
-pub fn p720() {
+pub fn p757() {
     let a: re::math::mat::Mat4x4<re::math::mat::RealToReal<3, re::render::World, re::render::World>> = mk();
     let _ = a.transpose();
 }
 
-pub fn p722() {
+pub fn p759() {
     let a: re::math::mat::Mat4x4<re::math::mat::RealToProj<re::render::Model>> = mk();
     let b: re::math::mat::Mat4x4<re::math::mat::RealToReal<3, re::render::Model, re::render::Model>> = mk();
     let _ = a.compose(&b);
 }
 
-pub fn p728() {
+pub fn p765() {
     let a: re::math::mat::Mat4x4<re::math::mat::RealToProj<re::render::Model>> = mk();
     let b: re::math::mat::Mat4x4<re::math::mat::RealToReal<3, (), re::render::Model>> = mk();
     let _ = a.compose(&b);
 }
 
-pub fn p734() {
+pub fn p771() {
     let a: re::math::mat::Mat4x4<re::math::mat::RealToProj<re::render::Model>> = mk();
     let b: re::math::mat::Mat4x4<re::math::mat::RealToReal<3, re::render::World, re::render::Model>> = mk();
     let _ = a.compose(&b);
 }
 
-pub fn p739() {
+pub fn p776() {
     let a: re::math::mat::Mat4x4<re::math::mat::RealToProj<re::render::Model>> = mk();
     let b: re::math::point::Point3<re::render::Model> = mk();
     let _ = a.apply(&b);
 }
 
-pub fn p754() {
+pub fn p791() {
     let a: re::math::mat::Mat4x4<re::math::mat::RealToProj<()>> = mk();
     let b: re::math::mat::Mat4x4<re::math::mat::RealToReal<3, re::render::Model, ()>> = mk();
     let _ = a.compose(&b);
 }
 
-pub fn p760() {
+pub fn p797() {
     let a: re::math::mat::Mat4x4<re::math::mat::RealToProj<()>> = mk();
     let b: re::math::mat::Mat4x4<re::math::mat::RealToReal<3, (), ()>> = mk();
     let _ = a.compose(&b);
 }
 
-pub fn p766() {
+pub fn p803() {
     let a: re::math::mat::Mat4x4<re::math::mat::RealToProj<()>> = mk();
     let b: re::math::mat::Mat4x4<re::math::mat::RealToReal<3, re::render::World, ()>> = mk();
     let _ = a.compose(&b);
 }
 
-pub fn p771() {
+pub fn p808() {
     let a: re::math::mat::Mat4x4<re::math::mat::RealToProj<()>> = mk();
     let b: re::math::point::Point3<()> = mk();
     let _ = a.apply(&b);
 }
 
-pub fn p786() {
+pub fn p823() {
     let a: re::math::mat::Mat4x4<re::math::mat::RealToProj<re::render::World>> = mk();
     let b: re::math::mat::Mat4x4<re::math::mat::RealToReal<3, re::render::Model, re::render::World>> = mk();
     let _ = a.compose(&b);
 }
 
-pub fn p792() {
+pub fn p829() {
     let a: re::math::mat::Mat4x4<re::math::mat::RealToProj<re::render::World>> = mk();
     let b: re::math::mat::Mat4x4<re::math::mat::RealToReal<3, (), re::render::World>> = mk();
     let _ = a.compose(&b);
 }
 
-pub fn p798() {
+pub fn p835() {
     let a: re::math::mat::Mat4x4<re::math::mat::RealToProj<re::render::World>> = mk();
     let b: re::math::mat::Mat4x4<re::math::mat::RealToReal<3, re::render::World, re::render::World>> = mk();
     let _ = a.compose(&b);
 }
 
-pub fn p803() {
+pub fn p840() {
     let a: re::math::mat::Mat4x4<re::math::mat::RealToProj<re::render::World>> = mk();
     let b: re::math::point::Point3<re::render::World> = mk();
     let _ = a.apply(&b);
 }
 
-pub fn p811() {
+pub fn p848() {
     use re::geom::{Tri, Vertex};
     let vs = |_: Vertex<re::math::point::Point3<re::render::Model>, ()>, _: ()| -> Vertex<re::math::vec::ProjVec4, f32> { mk() };
     let fs = |_: re::render::raster::Frag<f32>| -> Option<re::math::color::Color4> { mk() };
@@ -1054,61 +1097,61 @@ pub fn p811() {
     re::render::render(&tris, &verts, &sh, (), mk(), &mut target, &mk::<re::render::Context>());
 }
 
-pub fn p813() {
+pub fn p850() {
     let a: re::math::point::Point2<re::render::Model> = mk();
     let b: re::math::point::Point2<re::render::Model> = mk();
     let _ = re::math::Lerp::lerp(&a, &b, 0.5);
 }
 
-pub fn p814() {
+pub fn p851() {
     let a: re::math::point::Point2<re::render::Model> = mk();
     let b: re::math::point::Point2<re::render::Model> = mk();
     let _ = a - b;
 }
 
-pub fn p830() {
+pub fn p867() {
     let a: re::math::point::Point2<re::render::Model> = mk();
     let b: re::math::vec::Vec2<re::render::Model> = mk();
     let _ = a + b;
 }
 
-pub fn p840() {
+pub fn p877() {
     let a: re::math::point::Point2<()> = mk();
     let b: re::math::point::Point2<()> = mk();
     let _ = re::math::Lerp::lerp(&a, &b, 0.5);
 }
 
-pub fn p841() {
+pub fn p878() {
     let a: re::math::point::Point2<()> = mk();
     let b: re::math::point::Point2<()> = mk();
     let _ = a - b;
 }
 
-pub fn p855() {
+pub fn p892() {
     let a: re::math::point::Point2<()> = mk();
     let b: re::math::vec::Vec2<()> = mk();
     let _ = a + b;
 }
 
-pub fn p867() {
+pub fn p904() {
     let a: re::math::point::Point2<re::render::World> = mk();
     let b: re::math::point::Point2<re::render::World> = mk();
     let _ = re::math::Lerp::lerp(&a, &b, 0.5);
 }
 
-pub fn p868() {
+pub fn p905() {
     let a: re::math::point::Point2<re::render::World> = mk();
     let b: re::math::point::Point2<re::render::World> = mk();
     let _ = a - b;
 }
 
-pub fn p880() {
+pub fn p917() {
     let a: re::math::point::Point2<re::render::World> = mk();
     let b: re::math::vec::Vec2<re::render::World> = mk();
     let _ = a + b;
 }
 
-pub fn p894() {
+pub fn p931() {
     let a: re::math::point::Point3<re::render::Model> = mk();
     let b: re::math::point::Point3<re::render::Model> = mk();
     let c: re::math::point::Point3<re::render::Model> = mk();
@@ -1116,31 +1159,31 @@ pub fn p894() {
     let _ = re::math::space::Affine::add(&c, &d);
 }
 
-pub fn p899() {
+pub fn p936() {
     let a: re::math::point::Point3<re::render::Model> = mk();
     let b: re::math::point::Point3<re::render::Model> = mk();
     let _r: re::math::vec::Vec3<re::render::Model> = a - b;
 }
 
-pub fn p903() {
+pub fn p940() {
     let a: re::math::point::Point3<re::render::Model> = mk();
     let b: re::math::point::Point3<re::render::Model> = mk();
     let _ = re::math::Lerp::lerp(&a, &b, 0.5);
 }
 
-pub fn p904() {
+pub fn p941() {
     let a: re::math::point::Point3<re::render::Model> = mk();
     let b: re::math::point::Point3<re::render::Model> = mk();
     let _ = a - b;
 }
 
-pub fn p932() {
+pub fn p969() {
     let a: re::math::point::Point3<re::render::Model> = mk();
     let b: re::math::vec::Vec3<re::render::Model> = mk();
     let _ = a + b;
 }
 
-pub fn p960() {
+pub fn p997() {
     let a: re::math::point::Point3<()> = mk();
     let b: re::math::point::Point3<()> = mk();
     let c: re::math::point::Point3<()> = mk();
@@ -1148,31 +1191,31 @@ pub fn p960() {
     let _ = re::math::space::Affine::add(&c, &d);
 }
 
-pub fn p964() {
+pub fn p1001() {
     let a: re::math::point::Point3<()> = mk();
     let b: re::math::point::Point3<()> = mk();
     let _r: re::math::vec::Vec3<()> = a - b;
 }
 
-pub fn p967() {
+pub fn p1004() {
     let a: re::math::point::Point3<()> = mk();
     let b: re::math::point::Point3<()> = mk();
     let _ = re::math::Lerp::lerp(&a, &b, 0.5);
 }
 
-pub fn p968() {
+pub fn p1005() {
     let a: re::math::point::Point3<()> = mk();
     let b: re::math::point::Point3<()> = mk();
     let _ = a - b;
 }
 
-pub fn p985() {
+pub fn p1022() {
     let a: re::math::point::Point3<()> = mk();
     let b: re::math::vec::Vec3<()> = mk();
     let _ = a + b;
 }
 
-pub fn p1025() {
+pub fn p1062() {
     let a: re::math::point::Point3<re::render::World> = mk();
     let b: re::math::point::Point3<re::render::World> = mk();
     let c: re::math::point::Point3<re::render::World> = mk();
@@ -1180,169 +1223,169 @@ pub fn p1025() {
     let _ = re::math::space::Affine::add(&c, &d);
 }
 
-pub fn p1028() {
+pub fn p1065() {
     let a: re::math::point::Point3<re::render::World> = mk();
     let b: re::math::point::Point3<re::render::World> = mk();
     let _r: re::math::vec::Vec3<re::render::World> = a - b;
 }
 
-pub fn p1030() {
+pub fn p1067() {
     let a: re::math::point::Point3<re::render::World> = mk();
     let b: re::math::point::Point3<re::render::World> = mk();
     let _ = re::math::Lerp::lerp(&a, &b, 0.5);
 }
 
-pub fn p1031() {
+pub fn p1068() {
     let a: re::math::point::Point3<re::render::World> = mk();
     let b: re::math::point::Point3<re::render::World> = mk();
     let _ = a - b;
 }
 
-pub fn p1037() {
+pub fn p1074() {
     let a: re::math::point::Point3<re::render::World> = mk();
     let b: re::math::vec::Vec3<re::render::World> = mk();
     let _ = a + b;
-}
-
-pub fn p1044() {
-    let a: re::math::vec::Vec2<re::render::Model> = mk();
-    let b: re::math::vec::Vec2<re::render::Model> = mk();
-    let _ = a + b;
-}
-
-pub fn p1045() {
-    let a: re::math::vec::Vec2<re::render::Model> = mk();
-    let b: re::math::vec::Vec2<re::render::Model> = mk();
-    let _ = a.dot(&b);
-}
-
-pub fn p1046() {
-    let a: re::math::vec::Vec2<re::render::Model> = mk();
-    let b: re::math::vec::Vec2<re::render::Model> = mk();
-    let _ = re::math::Lerp::lerp(&a, &b, 0.5);
-}
-
-pub fn p1047() {
-    let a: re::math::vec::Vec2<re::render::Model> = mk();
-    let b: re::math::vec::Vec2<re::render::Model> = mk();
-    let _ = a - b;
-}
-
-pub fn p1078() {
-    let a: re::math::vec::Vec2<()> = mk();
-    let b: re::math::vec::Vec2<()> = mk();
-    let _ = a + b;
-}
-
-pub fn p1079() {
-    let a: re::math::vec::Vec2<()> = mk();
-    let b: re::math::vec::Vec2<()> = mk();
-    let _ = a.dot(&b);
-}
-
-pub fn p1080() {
-    let a: re::math::vec::Vec2<()> = mk();
-    let b: re::math::vec::Vec2<()> = mk();
-    let _ = re::math::Lerp::lerp(&a, &b, 0.5);
 }
 
 pub fn p1081() {
+    let a: re::math::vec::Vec2<re::render::Model> = mk();
+    let b: re::math::vec::Vec2<re::render::Model> = mk();
+    let _ = a + b;
+}
+
+pub fn p1082() {
+    let a: re::math::vec::Vec2<re::render::Model> = mk();
+    let b: re::math::vec::Vec2<re::render::Model> = mk();
+    let _ = a.dot(&b);
+}
+
+pub fn p1083() {
+    let a: re::math::vec::Vec2<re::render::Model> = mk();
+    let b: re::math::vec::Vec2<re::render::Model> = mk();
+    let _ = re::math::Lerp::lerp(&a, &b, 0.5);
+}
+
+pub fn p1084() {
+    let a: re::math::vec::Vec2<re::render::Model> = mk();
+    let b: re::math::vec::Vec2<re::render::Model> = mk();
+    let _ = a - b;
+}
+
+pub fn p1115() {
+    let a: re::math::vec::Vec2<()> = mk();
+    let b: re::math::vec::Vec2<()> = mk();
+    let _ = a + b;
+}
+
+pub fn p1116() {
+    let a: re::math::vec::Vec2<()> = mk();
+    let b: re::math::vec::Vec2<()> = mk();
+    let _ = a.dot(&b);
+}
+
+pub fn p1117() {
+    let a: re::math::vec::Vec2<()> = mk();
+    let b: re::math::vec::Vec2<()> = mk();
+    let _ = re::math::Lerp::lerp(&a, &b, 0.5);
+}
+
+pub fn p1118() {
     let a: re::math::vec::Vec2<()> = mk();
     let b: re::math::vec::Vec2<()> = mk();
     let _ = a - b;
 }
 
-pub fn p1112() {
-    let a: re::math::vec::Vec2<re::render::World> = mk();
-    let b: re::math::vec::Vec2<re::render::World> = mk();
-    let _ = a + b;
-}
-
-pub fn p1113() {
-    let a: re::math::vec::Vec2<re::render::World> = mk();
-    let b: re::math::vec::Vec2<re::render::World> = mk();
-    let _ = a.dot(&b);
-}
-
-pub fn p1114() {
-    let a: re::math::vec::Vec2<re::render::World> = mk();
-    let b: re::math::vec::Vec2<re::render::World> = mk();
-    let _ = re::math::Lerp::lerp(&a, &b, 0.5);
-}
-
-pub fn p1115() {
-    let a: re::math::vec::Vec2<re::render::World> = mk();
-    let b: re::math::vec::Vec2<re::render::World> = mk();
-    let _ = a - b;
-}
-
-pub fn p1146() {
-    let a: re::math::vec::Vec3<re::render::Model> = mk();
-    let b: re::math::vec::Vec3<re::render::Model> = mk();
-    let _ = a + b;
-}
-
-pub fn p1147() {
-    let a: re::math::vec::Vec3<re::render::Model> = mk();
-    let b: re::math::vec::Vec3<re::render::Model> = mk();
-    let _ = a.dot(&b);
-}
-
-pub fn p1148() {
-    let a: re::math::vec::Vec3<re::render::Model> = mk();
-    let b: re::math::vec::Vec3<re::render::Model> = mk();
-    let _ = re::math::Lerp::lerp(&a, &b, 0.5);
-}
-
 pub fn p1149() {
-    let a: re::math::vec::Vec3<re::render::Model> = mk();
-    let b: re::math::vec::Vec3<re::render::Model> = mk();
-    let _ = a - b;
-}
-
-pub fn p1181() {
-    let a: re::math::vec::Vec3<()> = mk();
-    let b: re::math::vec::Vec3<()> = mk();
+    let a: re::math::vec::Vec2<re::render::World> = mk();
+    let b: re::math::vec::Vec2<re::render::World> = mk();
     let _ = a + b;
 }
 
-pub fn p1182() {
-    let a: re::math::vec::Vec3<()> = mk();
-    let b: re::math::vec::Vec3<()> = mk();
+pub fn p1150() {
+    let a: re::math::vec::Vec2<re::render::World> = mk();
+    let b: re::math::vec::Vec2<re::render::World> = mk();
     let _ = a.dot(&b);
+}
+
+pub fn p1151() {
+    let a: re::math::vec::Vec2<re::render::World> = mk();
+    let b: re::math::vec::Vec2<re::render::World> = mk();
+    let _ = re::math::Lerp::lerp(&a, &b, 0.5);
+}
+
+pub fn p1152() {
+    let a: re::math::vec::Vec2<re::render::World> = mk();
+    let b: re::math::vec::Vec2<re::render::World> = mk();
+    let _ = a - b;
 }
 
 pub fn p1183() {
+    let a: re::math::vec::Vec3<re::render::Model> = mk();
+    let b: re::math::vec::Vec3<re::render::Model> = mk();
+    let _ = a + b;
+}
+
+pub fn p1184() {
+    let a: re::math::vec::Vec3<re::render::Model> = mk();
+    let b: re::math::vec::Vec3<re::render::Model> = mk();
+    let _ = a.dot(&b);
+}
+
+pub fn p1185() {
+    let a: re::math::vec::Vec3<re::render::Model> = mk();
+    let b: re::math::vec::Vec3<re::render::Model> = mk();
+    let _ = re::math::Lerp::lerp(&a, &b, 0.5);
+}
+
+pub fn p1186() {
+    let a: re::math::vec::Vec3<re::render::Model> = mk();
+    let b: re::math::vec::Vec3<re::render::Model> = mk();
+    let _ = a - b;
+}
+
+pub fn p1218() {
+    let a: re::math::vec::Vec3<()> = mk();
+    let b: re::math::vec::Vec3<()> = mk();
+    let _ = a + b;
+}
+
+pub fn p1219() {
+    let a: re::math::vec::Vec3<()> = mk();
+    let b: re::math::vec::Vec3<()> = mk();
+    let _ = a.dot(&b);
+}
+
+pub fn p1220() {
     let a: re::math::vec::Vec3<()> = mk();
     let b: re::math::vec::Vec3<()> = mk();
     let _ = re::math::Lerp::lerp(&a, &b, 0.5);
 }
 
-pub fn p1184() {
+pub fn p1221() {
     let a: re::math::vec::Vec3<()> = mk();
     let b: re::math::vec::Vec3<()> = mk();
     let _ = a - b;
 }
 
-pub fn p1215() {
+pub fn p1252() {
     let a: re::math::vec::Vec3<re::render::World> = mk();
     let b: re::math::vec::Vec3<re::render::World> = mk();
     let _ = a + b;
 }
 
-pub fn p1216() {
+pub fn p1253() {
     let a: re::math::vec::Vec3<re::render::World> = mk();
     let b: re::math::vec::Vec3<re::render::World> = mk();
     let _ = a.dot(&b);
 }
 
-pub fn p1217() {
+pub fn p1254() {
     let a: re::math::vec::Vec3<re::render::World> = mk();
     let b: re::math::vec::Vec3<re::render::World> = mk();
     let _ = re::math::Lerp::lerp(&a, &b, 0.5);
 }
 
-pub fn p1218() {
+pub fn p1255() {
     let a: re::math::vec::Vec3<re::render::World> = mk();
     let b: re::math::vec::Vec3<re::render::World> = mk();
     let _ = a - b;
